@@ -685,7 +685,14 @@ def c19_streams(rng, tier, budget):
 
 def c19_extra(scratch, rng, tier, budget):
     import extras
-    return extras.run_faults(scratch, tier)
+    r1 = extras.run_faults(scratch, tier)
+    r2 = extras.run_dyn_probe(scratch, "C19")
+    r1["failures"] = r1.get("failures", []) + r2.get("failures", [])
+    for k, v in r2.get("stats", {}).items():
+        r1.setdefault("stats", {})[k] = r1.get("stats", {}).get(k, 0) + v
+    r1["samples"] = r1.get("samples", []) + r2.get("samples", [])
+    r1["notes"] = r1.get("notes", []) + r2.get("notes", [])
+    return r1
 
 
 register(Prop("C19", c19_streams, compare=lambda op: True, oracle=c19_oracle, extra=c19_extra,
